@@ -145,3 +145,5 @@ func guard(f func() string) (res string) {
 	}()
 	return f()
 }
+
+func getenv(k string) string { return os.Getenv(k) }
